@@ -164,6 +164,7 @@ type w5Script struct {
 	Target string `json:"target"`  // user client labels allusers
 	LF     int    `json:"lf,omitempty"` // label filter shape for target "labels": 0 eq, 1 in, 2 nin, 3 and(neq,ex), 4 or(eq,eq), 5 not(eq)
 	PreSub int    `json:"pre_sub"` // channels both connections are subscribed to before the op
+	ExpiredSub bool `json:"expired_sub,omitempty"` // C28: one more subscription, already past its ExpireAt at the call
 	Hist   int    `json:"history"` // publications in the channel history before the op
 	CSR    bool   `json:"client_side_refresh"`
 	// survey mode
@@ -209,6 +210,7 @@ func w5Gen(c *simrt.Choice, prop, tier string) any {
 		sc.Op = "unsubscribe_all"
 		sc.PreSub = c.Intn(4)
 		sc.Opt = w5UnsubOpts[c.Intn(len(w5UnsubOpts))]
+		sc.ExpiredSub = c.Intn(3) == 0
 	} else {
 		// the (call, option, targeting) space is small: enumerate it by run index so that
 		// even a short batch covers every combination; everything else is sampled
@@ -480,6 +482,11 @@ func (w *w5World) runOp() {
 		return
 	}
 	pre := []string{"ejJ_a", "_d", "jJ_f"}[:sc.PreSub]
+	if sc.ExpiredSub && (w.prop == "C28" || sc.Op == "unsubscribe_all") {
+		// plus a subscription that is past its ExpireAt when the call is made but has not
+		// been removed yet: it is a subscription like any other
+		pre = append(append([]string{}, pre...), "X_g")
+	}
 	for _, ch := range pre {
 		x.runOp(w1Op{K: "sub", Ch: ch})
 		y.runOp(w1Op{K: "sub", Ch: ch})
@@ -506,6 +513,9 @@ func (w *w5World) runOp() {
 	}
 	_ = lastPos
 	s.Sleep(200 * time.Millisecond)
+	if sc.ExpiredSub && (w.prop == "C28" || sc.Op == "unsubscribe_all") {
+		s.Sleep(2500 * time.Millisecond)
+	}
 	from := w.seq
 	exp := time.Now().Unix() + 1000
 
@@ -637,6 +647,12 @@ func (w *w5World) runOp() {
 
 	if w.prop == "C28" || sc.Op == "unsubscribe_all" {
 		for side, cl := range map[string]*w1SimClient{"local": x, "remote": y} {
+			for _, ch := range pre {
+				// (Channels() alone could hide a subscription it chooses not to list)
+				if cl.client.IsSubscribed(ch) {
+					s.Violate("C28", "still-subscribed", "unsubscribe with empty channel left a subscription that IsSubscribed still reports ("+side+" connection)", "%s connection still subscribed to %s after Node.Unsubscribe(user, \"\")", side, ch)
+				}
+			}
 			if left := cl.client.Channels(); len(left) > 0 {
 				sort.Strings(left)
 				s.Violate("C28", "still-subscribed", "unsubscribe with empty channel left subscriptions ("+side+" connection)", "%s connection still subscribed to %v after Node.Unsubscribe(user, \"\")", side, left)
